@@ -206,6 +206,7 @@ type Run struct {
 	clockLog   []*Term
 	randInts   []*Term
 	pairs      []*pairEntry
+	epoch      int // network epoch (zzverif.NextEpoch)
 	background []*resolvedCall // goroutines started by the code under test (stub set "bgo")
 	bgFrames   []*Frame
 	bgBudget   int // wake-ups the running background goroutine may still take
